@@ -107,9 +107,9 @@ def check(run):
     if thorough:
         gens = [("one3", {"NH": "2", "MaxR": "3", "MaxFault": "1"}, None),
                 ("one2f", {"NH": "2", "MaxR": "2", "MaxFault": "2"}, None),
-                ("three", {"NH": "3", "MaxR": "3", "MaxFault": "0"}, None),
                 ("extras", {"NH": "2", "MaxR": "2", "MaxFault": "1", "Extras": "TRUE"}, None),
-                ("two", {"Names": AB, "NH": "2", "MaxR": "2", "MaxFault": "0"}, None)]
+                ("three", {"NH": "3", "MaxR": "3", "MaxFault": "1"}, 400),
+                ("two", {"Names": AB, "NH": "2", "MaxR": "2", "MaxFault": "0"}, 400)]
     jobs = []
     exhaustive = True
     graphs = par(run, [(lambda ov=ov: run.tlc_edges("LayerGen", "Layer_gen.cfg", ov, timeout=2400)) for _, ov, _ in gens])
